@@ -1,6 +1,7 @@
 package checks
 
 import (
+	"context"
 	"fmt"
 	"strings"
 
@@ -8,6 +9,8 @@ import (
 	"verifsim/simkern"
 	"verifsim/worlds/httpw"
 	"verifsim/worlds/pipew"
+
+	"github.com/Query-farm/vgi-rpc-go/vgirpc"
 )
 
 var unaryResultType = map[string]string{
@@ -99,8 +102,47 @@ func C04(e *simkern.Env) {
 		sim := simkern.NewSim(tp, e.Trace)
 		defer sim.Close()
 		hx.Rec.Reset()
+		// in half of the runs a dispatch hook gives every call its own context,
+		// which is cancelled while a planned handler is in flight; a failing
+		// handler then reports the context's own error
+		giveUp := tp.Bool(1, 2)
+		cancels := map[string]context.CancelFunc{}
+		plan := map[int64]bool{}
+		var cfgSrv func(*vgirpc.Server)
+		if giveUp {
+			hx.BeforeOutcome = func(ctx context.Context, sc *hx.Script) {
+				v, ok := plan[sc.Nonce]
+				if !ok {
+					v = tp.Bool(1, 3)
+					plan[sc.Nonce] = v
+				}
+				if !v {
+					return
+				}
+				for _, op := range ops {
+					if op.Script != nil && op.Script.Nonce == sc.Nonce {
+						if c := cancels[op.ReqID]; c != nil {
+							sim.Fault("call-context-cancelled-in-handler")
+							c()
+						}
+					}
+				}
+			}
+			hx.OutcomeErr = func(ctx context.Context, sc *hx.Script, err error) error {
+				if ctx.Err() != nil {
+					return fmt.Errorf("gave up: %w", ctx.Err())
+				}
+				return err
+			}
+			defer func() { hx.BeforeOutcome, hx.OutcomeErr = nil, nil }()
+			cfgSrv = func(s *vgirpc.Server) {
+				s.SetDispatchHook(c02DeadlineHook{byReq: func(reqID string) (context.CancelFunc, func(context.CancelFunc)) {
+					return nil, func(c context.CancelFunc) { cancels[reqID] = c }
+				}})
+			}
+		}
 		// pipe
-		sess := &pipew.Session{Srv: pipew.NewServer(nil), Ops: ops}
+		sess := &pipew.Session{Srv: pipew.NewServer(cfgSrv), Ops: ops}
 		reason := pipew.RunSession(sim, sess, kn, 30000)
 		if reason == simkern.StopDeadlock {
 			e.Violate("session-deadlock", "pipe:"+nextSig(sess), "%s", sess.StuckDetail())
@@ -161,7 +203,7 @@ func init() {
 		Real:  []string{"vgirpc.Server serveUnary / HttpServer.handleUnary, CallContext.ClientLog, wire writers, result serialization"},
 		Stub:  []string{"transports (sim pipe, direct ServeHTTP)", "protocol client", "scripted handlers"},
 		Quick: 800, Thorough: 80000,
-		FaultKinds: []string{"read-fragmentation", "write-delay"},
+		FaultKinds: []string{"read-fragmentation", "write-delay", "call-context-cancelled-in-handler"},
 		Assumptions: []string{"input family bounded by the compiled-in scripted result types", "no schedule dependence of its own: the simulator contributes position-in-history, transport, chunking and interleaving only"},
 	}
 }
